@@ -626,6 +626,11 @@ theorem ldfLoop_inbox (w h : Nat) : ∀ (items : List (Nat × Int × Int)) (p : 
       obtain ⟨i1, i2⟩ := walkDim_inbox w h _ _ _ p (fun e he => hb e (Or.inl he))
       rw [i1, i2, ih _ (fun e he => hb e (Or.inr he))]
 
+theorem hexLen_ge (x y : Int) :
+    x ≤ C11.hexLen x y ∧ -x ≤ C11.hexLen x y ∧ y ≤ C11.hexLen x y ∧ -y ≤ C11.hexLen x y ∧
+    x - y ≤ C11.hexLen x y ∧ y - x ≤ C11.hexLen x y := by
+  simp only [C11.hexLen]; omega
+
 /-- every chip of a shortest walk of the unbounded mesh lies in the bounding box of its two ends -/
 theorem geodesic_box (path : List (Nat × C11.P2)) (p c : C11.P2)
     (hok : C11.walkOk none none p path = true)
@@ -638,7 +643,11 @@ theorem geodesic_box (path : List (Nat × C11.P2)) (p c : C11.P2)
   have l2 := C11.reach_mesh_lower r2
   generalize C11.lastPos p path = q at *
   have : (i : Int) + j = path.length := by omega
-  simp only [C11.hexLen] at l1 l2 hlen
+  obtain ⟨a1, a2, a3, a4, a5, a6⟩ := hexLen_ge (c.1 - p.1) (c.2 - p.2)
+  obtain ⟨b1, b2, b3, b4, b5, b6⟩ := hexLen_ge (q.1 - c.1) (q.2 - c.2)
+  generalize C11.hexLen (c.1 - p.1) (c.2 - p.2) = H1 at *
+  generalize C11.hexLen (q.1 - c.1) (q.2 - c.2) = H2 at *
+  simp only [C11.hexLen] at hlen
   omega
 
 /-- **The route `ner_net` walks towards a destination on a mesh is a shortest walk that never leaves the
